@@ -288,6 +288,16 @@ pub fn run(rep: &mut Report, thorough: bool) {
             h.flags = 1;
             flow4(40000, 445).udp(&appsmb::smb2_negotiate(&h, &[0x0202], &[1; 16]))
         });
+        // reply flag together with any other flag bits: low 16 bits all odd values, and each high bit
+        let dims = [32768u64 + 16, 2];
+        strict_sweep(rep, &format!("smb2-flag-words-{}", tag), "SMB2 flag words with the response bit set: all 32768 odd low-16-bit values and bit0 + each of the 16 high bits x {negotiate, session setup}", product(&dims), "smb2", &|i| {
+            let d = unrank(i, &dims);
+            let fl: u32 = if d[0] < 32768 { (d[0] as u32) << 1 | 1 } else { 1 | (1u32 << (16 + d[0] - 32768)) };
+            let mut h = Smb2Hdr::new(d[1] as u16);
+            h.flags = fl;
+            let m = if d[1] == 0 { appsmb::smb2_negotiate(&h, &[0x0202, 0x0311], &[1; 16]) } else { appsmb::smb2_session_setup(&h, &[1, 2, 3, 4]) };
+            flow4(40000, 445).udp(&m)
+        });
         let dims = [255u64, 2, 3];
         strict_sweep(rep, &format!("rpc-msgtype-{}", tag), "ONC-RPC message type low byte 1..255 x {UDP, record-marked UDP} x 3 reply bodies", product(&dims), "rpc", &|i| {
             let d = unrank(i, &dims);
